@@ -159,6 +159,7 @@ func allProps() []Prop {
 		{Dir: pb, Harness: "prober", Entry: "VerifH_backoffconst", Logic: "QF_FPBV", Unroll: 12, TmoMs: 120000},
 		{Dir: pb, Harness: "prober", Entry: "VerifH_interval", Logic: "QF_FPBV"},
 		{Dir: pb, Harness: "prober", Entry: "VerifH_t4t7", Logic: "QF_UFBV", NoReplay: true},
+		{Dir: pb, Harness: "prober", Entry: "VerifH_t4t7c"},
 		{Dir: pb, Harness: "prober", Entry: "VerifH_payload", Flags: []string{"size=0"}},
 		{Dir: pb, Harness: "prober", Entry: "VerifH_payload", Flags: []string{"size=3"}},
 		{Dir: "spanner_prober", Harness: "spanner_prober", Entry: "VerifH_flags", Logic: "QF_UFFPBV", NoReplay: true},
@@ -173,7 +174,8 @@ func allProps() []Prop {
 	}
 	raceJobs := cat(
 		caseJobs("VerifH_race", map[string][]int{"pair": {0, 1, 2, 3, 4, 5, 6}}, []string{"pair"}),
-		caseJobs("VerifH_racegme", map[string][]int{"pair": {0, 1, 2, 3, 4}}, []string{"pair"}),
+		[]Job{{Dir: gcp, Harness: gcp, Entry: "VerifH_race", Flags: []string{"pair=7", "rr"}}},
+		caseJobs("VerifH_racegme", map[string][]int{"pair": {0, 1, 2, 3, 4, 5, 6, 7}}, []string{"pair"}),
 		[]Job{{Dir: me, Harness: "multiendpoint", Entry: "VerifH_raceme", TmoMs: 60000}})
 	for i := range raceJobs {
 		raceJobs[i].NoReplay = true
